@@ -10,6 +10,19 @@ Inductive fitchk : Type :=
 | KNoIBBOverlap | KNoACMOverlap | KCoversRV | KCoversFV | KCoversFIT | KACMBelow4G
 | KHasMicrocode | KHasACM | KHasIBB.
 
+(* observations on one platform: GetHFSTS1 / GetHFSTS6 (None: error; else the status word put
+   together from the decoded fields); SaneMEBootGuardProvisioning (strict or not) and
+   ValidateMEAgainstManifests fed from GetHFSTS6 + GetBGInfo on that platform; the pkg/test
+   entry points BootGuardSaneMEConfig / BootGuardValidateME on a firmware image whose
+   manifests have the stated version / SVNs / key manifest id *)
+Inductive pobs : Type :=
+| OHfsts1 (r : option Z)
+| OHfsts6 (r : option Z)
+| OSane (strict : bool) (v : Z) (r : verd)
+| OValidate (v bpmsvn kmsvn kmid : Z) (r : verd)
+| OTestSane (strict : bool) (v : Z) (r : verd)
+| OTestValidate (v bpmsvn kmsvn kmid : Z) (r : verd).
+
 Inductive case : Type :=
 (* a FIT range/presence check on package state (fitPointer, fitHeaders); [mem]: the size
    fields of the ACM headers in physical memory (address of the field -> value) *)
@@ -37,6 +50,9 @@ Inductive case : Type :=
 | CSaneME (strict : bool) (v hfsts6 msr : Z) (r : verd)
 | CSaneMEAll (strict : bool) (v msr base : Z) (rs : list bool)
 | CValidateME (v hfsts6 bpmsvn kmsvn kmid : Z) (r : verd)
+(* one platform (visible PCI devices in enumeration order, enumeration error, MSR 13Ah) and
+   what the code made of it *)
+| CPlat (devs : list pcidev) (ee : bool) (msr : Z) (obs : list pobs)
 | CBpmCrypto (v nse : Z) (algs : list Z) (lsize sigalg : Z) (r : verd)
 | CKmCrypto (v a1 : Z) (algs : list Z) (r : verd)
 | CSaneBpm (strict : bool) (v nse flags pbet base0 vtdbar : Z) (txte : option Z) (nseg : Z) (r : verd)
@@ -71,6 +87,23 @@ Definition bits_model (k : Z) (a : list Z) : verd :=
   else if k =? 9 then ia32_feature_ctrl (arg a 0)
   else VPanic.
 
+Definition optZ_eqb (a b : option Z) : bool :=
+  match a, b with
+  | Some x, Some y => x =? y
+  | None, None => true
+  | _, _ => false
+  end.
+
+Definition check_pobs (devs : list pcidev) (ee : bool) (msr : Z) (o : pobs) : bool :=
+  match o with
+  | OHfsts1 r => optZ_eqb r (get_hfsts1 devs ee)
+  | OHfsts6 r => optZ_eqb r (get_hfsts6 devs ee)
+  | OSane st v r => verd_eqb r (sane_me_plat st v devs ee msr)
+  | OValidate v b k i r => verd_eqb r (validate_me_plat v devs ee b k i)
+  | OTestSane st v r => verd_eqb r (test_sane_me_plat st v devs ee msr)
+  | OTestValidate v b k i r => verd_eqb r (test_validate_me_plat v devs ee b k i)
+  end.
+
 Definition check (c : case) : bool :=
   match c with
   | CFit k p t m r => verd_eqb r (fit_model k p t m)
@@ -91,6 +124,7 @@ Definition check (c : case) : bool :=
   | CSaneME st v h m r => verd_eqb r (sane_me_raw st v h m)
   | CSaneMEAll st v m base rs => list_eqb Bool.eqb rs (sane_me_all st v m base)
   | CValidateME v h b k i r => verd_eqb r (validate_me v (decode_hfsts6 h) b k i)
+  | CPlat devs ee msr obs => forallb (check_pobs devs ee msr) obs
   | CBpmCrypto v n al ls sa r => verd_eqb r (bpm_crypto v n al ls sa)
   | CKmCrypto v a al r => verd_eqb r (km_crypto v a al)
   | CSaneBpm st v n fl pb b0 vt tx ns r =>
